@@ -756,3 +756,145 @@ theorem bw_rprunable (ty i o m : Nat) : BW (2 * CAP) 11 0 (rprunable ty i o m) :
   · exact up (bw_pure _)
   · exact up (bw_bind (up (bw_rproofs ty o)) fun (rs, bps, bpps) => bw_bind (up (bw_rsigs ty i m)) fun (ms, cs) =>
       bw_bind (up (bw_rpseudo ty i)) fun po => up (bw_pure _))
+
+/-! ## Transaction -/
+
+/-- version-1 signature rows: each row (`Vec<Signature>`, collected from an iterator of `Result`s, hence grown by `push`)
+costs `GROW·64` heap bytes per 64-byte signature. The headers of the rows vector are reserved by `rtx` (see `BoundedC`). -/
+def rsigRows : List Nat → RDec (List (List Bytes))
+  | [] => rpure []
+  | n :: t => rbind (rpushN (GROW * szSig) (lift (takeN 64)) n) fun s => rbind (rsigRows t) fun ss => rpure (s :: ss)
+
+theorem agrees_rsigRows : ∀ rings, Agrees (rsigRows rings) (tx.sigs rings)
+  | [] => by simp only [rsigRows, tx.sigs]; exact agrees_pure _
+  | n :: t => by
+    simp only [rsigRows, tx.sigs]
+    exact agrees_bind (agrees_pushN _ (agrees_lift _) _) fun s => agrees_bind (agrees_rsigRows t) fun ss => agrees_pure _
+
+theorem bounded_rsigRows : ∀ rings, Bounded 0 4 (rsigRows rings)
+  | [] => by simp only [rsigRows]; exact bounded_mono (bounded_pure _) (Nat.zero_le _) (Nat.zero_le _)
+  | n :: t => by
+    simp only [rsigRows]
+    exact bounded_bind (bounded_mono (bw_pushN (k := 4) (bw_lift (eats_takeN 64)) (by decide) n).bd (Nat.le_refl _) (by omega))
+      fun s => bounded_bind (bounded_rsigRows t) fun ss => bounded_mono (bounded_pure _) (Nat.zero_le _) (Nat.zero_le _)
+
+/-- ring sizes of the key inputs (one signature row each) -/
+def ringsOf (p : Prefix) : List Nat := p.ins.filterMap fun i => match i with | .toKey _ o _ => some o.length | _ => none
+
+/-- instrumented `Transaction::consensus_decode`. The prefix stays alive throughout. Version 1: the rows vector
+(`Vec<Vec<Signature>>`, push-grown, one 24-byte header per key input) is charged in full, `GROW·24` per row, before the
+first row is read — an over-approximation at every instant. -/
+def rtx : RDec Tx := rbind rprefix fun p =>
+  if p.version = 1 then
+    ralloc ((ringsOf p).length * (GROW * szVec)) (rbind (rsigRows (ringsOf p)) fun s => rpure ⟨p, s, none, none⟩)
+  else if p.ins.length = 0 then rpure ⟨p, [], none, none⟩
+  else rbind (rbase p.ins.length p.outs.length) fun b =>
+    if b.ty ≠ 0 then
+      match p.ins.head? with
+      | some (.toKey _ o _) =>
+        if o.length = 0 then rfail
+        else rbind (rprunable b.ty p.ins.length p.outs.length (o.length - 1)) fun pr => rpure ⟨p, [], some b, pr⟩
+      | _ => rbind (rprunable b.ty p.ins.length p.outs.length 0) fun pr => rpure ⟨p, [], some b, pr⟩
+    else rpure ⟨p, [], some b, none⟩
+
+theorem agrees_rtx : Agrees rtx tx := by
+  unfold rtx tx
+  refine agrees_bind agrees_rprefix fun p => ?_
+  dsimp only
+  split
+  · exact agrees_alloc _ (agrees_bind (agrees_rsigRows _) fun s => agrees_pure _)
+  · split
+    · exact agrees_pure _
+    · refine agrees_bind (agrees_rbase _ _) fun b => ?_
+      split
+      · cases hh : p.ins.head? with
+        | none => exact agrees_bind (agrees_rprunable _ _ _ _) fun pr => agrees_pure _
+        | some i0 =>
+          cases i0 with
+          | gen h => exact agrees_bind (agrees_rprunable _ _ _ _) fun pr => agrees_pure _
+          | toKey a o k =>
+            dsimp only
+            split
+            · exact agrees_fail
+            · exact agrees_bind (agrees_rprunable _ _ _ _) fun pr => agrees_pure _
+      · exact agrees_pure _
+
+/-- the instrumented transaction decoder computes exactly the model's result -/
+theorem rtx_val (b : Bytes) : (rtx b).val = tx b := agrees_rtx b
+
+/-- slope of the transaction bound: 40 for the inputs vector (8 per key-offset byte + 64/2 per input byte) plus 48 for
+the version-1 rows vector (`GROW·24` per input of at least 2 bytes); all other sections need less (ecdh 33, ring
+signatures 11, range proofs 3) -/
+def Btx : Nat := 88
+
+theorem bounded_rtx : Bounded (2 * CAP) Btx rtx := by
+  unfold rtx
+  have up {α} {A B : Nat} {d : RDec α} (h : Bounded A B d) (hA : A ≤ 2 * CAP := by omega) (hB : B ≤ 88 := by omega) :
+      Bounded (2 * CAP) Btx d := bounded_mono h hA hB
+  refine bounded_bind_credit (B1 := 40) (c := GROW * szVec) (k := 48) (w := 2) (g := fun p => p.ins.length)
+    bounded_rprefix (by decide) (by decide) (fun b p r h => prefix_eats_ins b p r (by rw [← rprefix_val]; exact h)) fun p => ?_
+  split
+  · refine boundedC_mono (boundedC_alloc (up (A := 0) (B := 4) ?_) _)
+      (Nat.mul_le_mul_right _ (List.length_filterMap_le _ _))
+    exact bounded_bind (bounded_rsigRows _) fun s => bounded_mono (bounded_pure _) (Nat.zero_le _) (Nat.zero_le _)
+  · refine boundedC_of_bounded ?_ _
+    split
+    · exact up (bounded_pure _)
+    · refine bounded_bind (up (bw_rbase _ _).bd) fun b => ?_
+      have fin (m : Nat) : Bounded (2 * CAP) Btx
+          (rbind (rprunable b.ty p.ins.length p.outs.length m) fun pr => rpure (Tx.mk p [] (some b) pr)) :=
+        bounded_bind (up (bw_rprunable _ _ _ _).bd) fun pr => up (bounded_pure _)
+      split
+      · split
+        · split
+          · exact up bounded_rfail
+          · exact fin _
+        · exact fin 0
+      · exact up (bounded_pure _)
+
+/-- whole transaction: the instrumented decoder returns the model's result, and at every moment of the decode the
+outstanding heap is at most `2·CAP + 88·|input|`, whether it succeeds or fails -/
+theorem alloc_bound_tx (b : Bytes) : (rtx b).val = tx b ∧ (rtx b).peak ≤ 2 * CAP + Btx * b.length := by
+  refine ⟨rtx_val b, ?_⟩
+  have hp := bounded_rtx.peak b
+  have hu : used b (rtx b) ≤ b.length := by unfold used; split <;> omega
+  have := Nat.mul_le_mul_left Btx hu
+  omega
+theorem alloc_released_tx (b : Bytes) (h : (rtx b).val = none) : (rtx b).live = 0 := bounded_rtx.live_fail b h
+
+/-! ## Block -/
+
+theorem eats_uintLE (k : Nat) : Eats k (uintLE k) := by
+  unfold uintLE
+  exact eats_mono (eats_bind (eats_takeN k) fun b => eats_pure _) (by omega)
+theorem eats_header : Eats 39 header := by
+  unfold header
+  exact eats_mono (eats_bind eats_varint fun ma => eats_bind eats_varint fun mi => eats_bind eats_varint fun ts =>
+    eats_bind eats_key fun pv => eats_bind (eats_uintLE 4) fun n => eats_pure _) (by omega)
+
+/-- instrumented `Block::consensus_decode`: header (no heap), miner transaction, capped vector of 32-byte hashes -/
+def rblock : RDec Block :=
+  rbind (lift header) fun h => rbind rtx fun t => rbind (rvec sizes.key (lift key)) fun hs => rpure ⟨h, t, hs⟩
+
+theorem agrees_rblock : Agrees rblock block := by
+  unfold rblock block
+  exact agrees_bind (agrees_lift header) fun h => agrees_bind agrees_rtx fun t =>
+    agrees_bind (agrees_vec _ (agrees_lift key)) fun hs => agrees_pure _
+theorem rblock_val (b : Bytes) : (rblock b).val = block b := agrees_rblock b
+
+def Bblock : Nat := 88
+
+theorem bounded_rblock : Bounded (2 * CAP) Bblock rblock := by
+  unfold rblock
+  have up {α} {A B : Nat} {d : RDec α} (h : Bounded A B d) (hA : A ≤ 2 * CAP := by omega) (hB : B ≤ 88 := by omega) :
+      Bounded (2 * CAP) Bblock d := bounded_mono h hA hB
+  exact bounded_bind (up (bw_lift eats_header).bd) fun h => bounded_bind (up bounded_rtx (Nat.le_refl _) (Nat.le_refl _)) fun t =>
+    bounded_bind (up bw_keys.bd) fun hs => up (bounded_pure _)
+
+theorem alloc_bound_block (b : Bytes) : (rblock b).val = block b ∧ (rblock b).peak ≤ 2 * CAP + Bblock * b.length := by
+  refine ⟨rblock_val b, ?_⟩
+  have hp := bounded_rblock.peak b
+  have hu : used b (rblock b) ≤ b.length := by unfold used; split <;> omega
+  have := Nat.mul_le_mul_left Bblock hu
+  omega
+theorem alloc_released_block (b : Bytes) (h : (rblock b).val = none) : (rblock b).live = 0 := bounded_rblock.live_fail b h
